@@ -16,6 +16,7 @@ import Yv.Model.DP
 import Yv.Model.GenTab
 import Yv.Model.Digraph
 import Yv.Model.Drive
+import Yv.Model.Term
 import Yv.Model.XDrv
 import Yv.Model.Visitor
 /-! `ymodel`: line-protocol driver. Reads the dump the Go harness wrote for each case (grammar as
@@ -273,6 +274,9 @@ def process (out : IO.FS.Stream) (a : CaseAcc) : IO Unit := do
     | some (e, c) => { P0 with errC := e, accC := c }
     | none => P0
   out.putStrLn s!"V codes {verdict (P.errC == Y.errCode rows.length && P.accC == Y.accCode rows.length)}"
+  -- hypothesis of C06_terminates: every reduce-only simulation from [0] and from every adjacent pair of states
+  -- leaves the reduce regime within F moves under every lookahead, and no row shifts the end marker
+  out.putStrLn s!"V certTerm {verdict (Y.Term.certTermFast yg rows rows.length 20000)}"
   for i in [0:a.inputs.size] do
     let w := a.inputs[i]!
     match Y.D.run P (200 * (w.length + 2) + 200) (Y.D.init () (w.map fun x => (x, ()))) with
